@@ -62,12 +62,13 @@ Count(k, b)    == IF b = 0 THEN k.ext ELSE k.int
 Issued(s, w, x, b, i) == Has(s, w, x) /\ i < Count(s.ks[w][x], b)
 Mutating == {"NewKs", "NextAddr", "GenKey", "Remark", "ChangePriv", "ChangePub", "Delete", "Import"}
 
-Init == S = [ks |-> [w \in Wallets |-> [x \in Seeds |-> NoKs]],
-             priv |-> [w \in Wallets |-> NoPass],
-             pub |-> [w \in Wallets |-> CHOOSE p \in Pass : WF(p)],
-             up |-> [w \in Wallets |-> FALSE],
-             unlocked |-> [w \in Wallets |-> FALSE],
-             files |-> [f \in FileIds |-> NoFile]]
+InitS == [ks |-> [w \in Wallets |-> [x \in Seeds |-> NoKs]],
+          priv |-> [w \in Wallets |-> NoPass],
+          pub |-> [w \in Wallets |-> CHOOSE p \in Pass : WF(p)],
+          up |-> [w \in Wallets |-> FALSE],
+          unlocked |-> [w \in Wallets |-> FALSE],
+          files |-> [f \in FileIds |-> NoFile]]
+Init == S = InitS
 
 (* ------------------------------------------------------------------ Ok *)
 ImportNew(op) == IF op.new = "" THEN op.old ELSE op.new
